@@ -45,9 +45,14 @@ def unfold_contraction_generic_tuple(red_op, bin_op, reduced_vars, terms):
             return Contraction(red_op, v.bin_op, reduced_vars, *new_terms)
 
         # Pulling the reduction of v out over its siblings is capture-free only
-        # if no sibling mentions a variable bound in v (e.g. v may occur twice).
+        # if no sibling mentions a variable bound in v (e.g. v may occur twice),
+        # and merging its binders with ours only if they are different variables
+        # (a copy of v may have been merged into this contraction already).
         siblings = terms[:i] + terms[i + 1 :]
-        if v.reduced_vars and any(v.reduced_vars & t.input_vars for t in siblings):
+        if v.reduced_vars and (
+            v.reduced_vars & reduced_vars
+            or any(v.reduced_vars & t.input_vars for t in siblings)
+        ):
             continue
 
         if red_op in (v.red_op, ops.null) and (v.red_op, bin_op) in DISTRIBUTIVE_OPS:
